@@ -36,3 +36,17 @@ func closePrivateDB(obj any, field string) {
 		db.Close()
 	}
 }
+
+// reflectField returns the value held in an unexported field of a node object.
+func reflectField(obj any, field string) any {
+	defer func() { recover() }()
+	v := reflect.ValueOf(obj)
+	if v.Kind() == reflect.Pointer {
+		v = v.Elem()
+	}
+	f := v.FieldByName(field)
+	if !f.IsValid() {
+		return nil
+	}
+	return reflect.NewAt(f.Type(), unsafe.Pointer(f.UnsafeAddr())).Elem().Interface()
+}
